@@ -56,7 +56,7 @@ ASSUMPTIONS = [
 ]
 
 FUEL = 1100
-MAX_CRASHES = 4
+MAX_CRASHES = 3
 TH_STD = ["0:0", "1:-60", "1:-20", "1:-6", "1:-3", "1:-1", "1:0", "2:0"]
 
 
@@ -1113,7 +1113,7 @@ def compare(c, d, m, pts, stats):
     return None
 
 
-def shrink(ctx, exe, mexe, case, stats, sig=None):
+def shrink(ctx, exe, mexe, case, stats, sig=None, steps=60):
     """smaller insertion order on which the implementation still fails its specification"""
     def still(order):
         c2 = dict(case, order=list(order), queries=[q for q in case["queries"] if q in order] or list(order)[:1])
@@ -1125,7 +1125,7 @@ def shrink(ctx, exe, mexe, case, stats, sig=None):
     if case["mode"] != "E" or len(case["order"]) <= 2:
         return case
     try:
-        order = vlib.shrink_list(case["order"], still, max_steps=60)
+        order = vlib.shrink_list(case["order"], still, max_steps=steps)
     except Exception:
         return case
     return dict(case, order=list(order), queries=[q for q in case["queries"] if q in order] or list(order)[:1])
@@ -1143,9 +1143,15 @@ def run_batch(ctx, exe, mexe, cases, stats, with_model=True):
     bad.sort(key=lambda kw: len(cases[kw[0]]["order"]))
     done = {}
     for k, why, sig in bad:
-        if done.get(sig, 0) >= (1 if sig else 3):
+        # a crash / hang costs many seconds per attempt: report the smallest one as it is, do not shrink
+        slow = "aborts / hangs" in why
+        key = "crash" if slow else sig
+        if done.get(key, 0) >= (1 if key else 3):
             continue
-        done[sig] = done.get(sig, 0) + 1
+        done[key] = done.get(key, 0) + 1
+        if slow:
+            ctx.violation(cases[k], why, signature=sig)
+            continue
         c = shrink(ctx, exe, mexe, cases[k], stats, sig)
         f = evaluate(ctx, exe, mexe, [c], new_stats(), with_model=False, record=False)
         ctx.violation(c, f[0][0] or why, signature=sig)
